@@ -65,6 +65,11 @@ def OneOf(*shapes):
     return Sh('oneof', *shapes)
 
 
+def Callback(returns=None, raises='Exception'):
+    """user-supplied callable: returns an unconstrained value or raises an arbitrary exception"""
+    return Sh('callback', returns, raises)
+
+
 def StrObj(cls, **fields):
     """instance of a str subclass (MibStatus)"""
     return Sh('strobj', cls, **fields)
@@ -127,6 +132,21 @@ def build(sh, it, hint='v'):
             d.keys.append(key)
             d.vals[key] = build(s, it, hint + '.' + key)
         return d
+    if k == 'callback':
+        ret_sh, exc_cls = sh.a
+
+        def call(it_, args, kwargs, ret_sh=ret_sh, exc_cls=exc_cls, hint=hint):
+            from .interp import PyRaise
+            it_.ctx.note('user callback %s: returns anything or raises any exception (assumed protocol)' % hint)
+            if it_.ctx.choose(2, 'callback:' + hint) == 1:
+                e = VObj(exc_cls)
+                e.fields['args'] = (it_.fresh_str('cbmsg'),)
+                e.fields['msg'] = e.fields['args'][0]
+                raise PyRaise(e, None)
+            it_.ctx.ghost['cb_calls'] = it_.ctx.ghost.get('cb_calls', 0) + 1
+            it_.ctx.ghost['cb_last_args'] = tuple(args)
+            return build(ret_sh, it_, hint + '.ret') if ret_sh is not None else it_.fresh_any(hint + '.ret')
+        return pv.VBuiltin('callback:' + hint, call)
     if k == 'opt':
         if ctx.choose(2, 'opt:' + hint) == 0:
             return None
